@@ -2,7 +2,7 @@
    checker the oracle applies to the implementation's own observation.
 
    The pending timers form a priority queue keyed by (deadline, registration number); the
-   deferred callbacks a queue; all other watches a bag.  One iteration at time [now]:
+   deferred callbacks a queue; the other watches are kept per kind.  One iteration at time [now]:
      take the SNAPSHOT of the identities of the timers with deadline <= now, in key order,
      followed by the identities of the deferred callbacks, in queue order;
      for each identity of the snapshot that is STILL pending when its turn comes:
@@ -18,10 +18,10 @@ Import ListNotations.
 Local Open Scope Z_scope.
 
 Record sst := mkS {
-  s_pq : list watch; s_def : list watch; s_oth : list watch;
+  s_pq : list watch; s_def : list watch; s_ios : list watch; s_sigs : list watch; s_procs : list watch;
   s_next : Z; s_now : Z; s_iter : Z; s_log : list obs }.
 
-Definition sst0 : sst := mkS [] [] [] 0 0 0 [].
+Definition sst0 : sst := mkS [] [] [] [] [] 0 0 0 [].
 
 (* (deadline, seq) lexicographic *)
 Definition key_le (a b : watch) : bool :=
@@ -34,34 +34,37 @@ Fixpoint pq_insert (w : watch) (l : list watch) : list watch :=
   end.
 
 Definition s_emit (s : sst) (w : watch) (flags : Z) : sst :=
-  mkS (s_pq s) (s_def s) (s_oth s) (s_next s) (s_now s) (s_iter s)
+  mkS (s_pq s) (s_def s) (s_ios s) (s_sigs s) (s_procs s) (s_next s) (s_now s) (s_iter s)
       (OEv (mkE (w_id w) (w_kind w) flags (s_iter s) (s_now s) (w_x w)) :: s_log s).
 
 Definition s_notify (s : sst) (w : watch) : sst :=
   if w_unbind w then s_emit s w EV_UNBIND else s.
 
-(* remove a pending watch, wherever it is *)
-Definition s_take (s : sst) (id : Z) : option (watch * sst) :=
-  match find_remove id (s_pq s) with
-  | Some (w, l) => Some (w, mkS l (s_def s) (s_oth s) (s_next s) (s_now s) (s_iter s) (s_log s))
-  | None =>
-  match find_remove id (s_def s) with
-  | Some (w, l) => Some (w, mkS (s_pq s) l (s_oth s) (s_next s) (s_now s) (s_iter s) (s_log s))
-  | None =>
-  match find_remove id (s_oth s) with
-  | Some (w, l) => Some (w, mkS (s_pq s) (s_def s) l (s_next s) (s_now s) (s_iter s) (s_log s))
-  | None => None
-  end end end.
-
 (* only timers and deferred callbacks are ever run by the iteration *)
 Definition s_take_runnable (s : sst) (id : Z) : option (watch * sst) :=
   match find_remove id (s_pq s) with
-  | Some (w, l) => Some (w, mkS l (s_def s) (s_oth s) (s_next s) (s_now s) (s_iter s) (s_log s))
+  | Some (w, l) => Some (w, mkS l (s_def s) (s_ios s) (s_sigs s) (s_procs s) (s_next s) (s_now s) (s_iter s) (s_log s))
   | None =>
   match find_remove id (s_def s) with
-  | Some (w, l) => Some (w, mkS (s_pq s) l (s_oth s) (s_next s) (s_now s) (s_iter s) (s_log s))
+  | Some (w, l) => Some (w, mkS (s_pq s) l (s_ios s) (s_sigs s) (s_procs s) (s_next s) (s_now s) (s_iter s) (s_log s))
   | None => None
   end end.
+
+(* remove a pending watch, wherever it is *)
+Definition s_take (s : sst) (id : Z) : option (watch * sst) :=
+  match s_take_runnable s id with
+  | Some r => Some r
+  | None =>
+  match find_remove id (s_ios s) with
+  | Some (w, l) => Some (w, mkS (s_pq s) (s_def s) l (s_sigs s) (s_procs s) (s_next s) (s_now s) (s_iter s) (s_log s))
+  | None =>
+  match find_remove id (s_sigs s) with
+  | Some (w, l) => Some (w, mkS (s_pq s) (s_def s) (s_ios s) l (s_procs s) (s_next s) (s_now s) (s_iter s) (s_log s))
+  | None =>
+  match find_remove id (s_procs s) with
+  | Some (w, l) => Some (w, mkS (s_pq s) (s_def s) (s_ios s) (s_sigs s) l (s_next s) (s_now s) (s_iter s) (s_log s))
+  | None => None
+  end end end end.
 
 Section WithEnv.
 Variable env : Z -> list action.
@@ -70,17 +73,20 @@ Definition s_action (s : sst) (a : action) : sst :=
   let fresh k fl cb x := mkW (s_next s) k (f_unbind fl) (f_destroy fl) cb x in
   match a with
   | ATimer d fl cb =>
-      mkS (pq_insert (fresh KTimer fl cb (s_now s + d)) (s_pq s)) (s_def s) (s_oth s)
+      mkS (pq_insert (fresh KTimer fl cb (s_now s + d)) (s_pq s)) (s_def s) (s_ios s) (s_sigs s) (s_procs s)
           (s_next s + 1) (s_now s) (s_iter s) (s_log s)
   | ALater fl cb =>
-      mkS (s_pq s) (insert_watch (f_first fl) (s_def s) (fresh KLater fl cb 0)) (s_oth s)
+      mkS (s_pq s) (insert_watch (f_first fl) (s_def s) (fresh KLater fl cb 0)) (s_ios s) (s_sigs s) (s_procs s)
           (s_next s + 1) (s_now s) (s_iter s) (s_log s)
   | AWatch KIo _ fl cb =>
-      mkS (s_pq s) (s_def s) (s_oth s ++ [fresh KIo fl cb 0]) (s_next s + 1) (s_now s) (s_iter s) (s_log s)
+      mkS (s_pq s) (s_def s) (insert_watch (f_first fl) (s_ios s) (fresh KIo fl cb 0)) (s_sigs s) (s_procs s)
+          (s_next s + 1) (s_now s) (s_iter s) (s_log s)
   | AWatch KSig x fl cb =>
-      mkS (s_pq s) (s_def s) (s_oth s ++ [fresh KSig fl cb x]) (s_next s + 1) (s_now s) (s_iter s) (s_log s)
+      mkS (s_pq s) (s_def s) (s_ios s) (insert_watch (f_first fl) (s_sigs s) (fresh KSig fl cb x)) (s_procs s)
+          (s_next s + 1) (s_now s) (s_iter s) (s_log s)
   | AWatch KProc _ fl cb =>
-      mkS (s_pq s) (s_def s) (s_oth s ++ [fresh KProc fl cb 0]) (s_next s + 1) (s_now s) (s_iter s) (s_log s)
+      mkS (s_pq s) (s_def s) (s_ios s) (s_sigs s) (insert_watch (f_first fl) (s_procs s) (fresh KProc fl cb 0))
+          (s_next s + 1) (s_now s) (s_iter s) (s_log s)
   | AWatch _ _ _ _ => s
   | ACancel id => match s_take s id with Some (w, s') => s_notify s' w | None => s end
   | ANop => s
@@ -110,17 +116,20 @@ Definition s_msec (s : sst) : Z :=
   end.
 
 Definition s_tick (sleep : bool) (dt : Z) (s : sst) : sst :=
-  let s1 := mkS (s_pq s) (s_def s) (s_oth s) (s_next s) (s_now s + dt) (s_iter s + 1) (s_log s) in
+  let s1 := mkS (s_pq s) (s_def s) (s_ios s) (s_sigs s) (s_procs s) (s_next s) (s_now s + dt) (s_iter s + 1) (s_log s) in
   let msec := if sleep then s_msec s1 else 0 in
   let nw := if sleep && (0 <? msec) then s_now s1 + msec * 1000 else s_now s1 in
-  let s2 := mkS (s_pq s1) (s_def s1) (s_oth s1) (s_next s1) nw (s_iter s1) (OPoll msec :: s_log s1) in
+  let s2 := mkS (s_pq s1) (s_def s1) (s_ios s1) (s_sigs s1) (s_procs s1) (s_next s1) nw (s_iter s1) (OPoll msec :: s_log s1) in
   let snapshot := map w_id (filter (fun w => w_x w <=? nw) (s_pq s2)) ++ map w_id (s_def s2) in
   s_run_ids snapshot s2.
 
+(* the visiting order of destruction is not part of the property (the oracle compares this
+   part as a bag); the order written here is the implementation's *)
 Definition s_destroy (s : sst) : sst :=
-  let s0 := mkS (s_pq s) (s_def s) (s_oth s) (s_next s) (s_now s) (-1) (s_log s) in
-  fold_left (fun s w => if asked w then s_emit s w (EV_UNBIND + EV_DESTROY) else s)
-            (s_oth s0 ++ s_pq s0 ++ s_def s0) s0.
+  let s0 := mkS (s_pq s) (s_def s) (s_ios s) (s_sigs s) (s_procs s) (s_next s) (s_now s) (-1) (s_log s) in
+  let s1 := fold_left (fun s w => if asked w then s_emit s w (EV_UNBIND + EV_DESTROY) else s)
+                      (s_ios s0 ++ s_pq s0 ++ s_def s0 ++ s_sigs s0 ++ s_procs s0) s0 in
+  mkS [] [] [] [] [] (s_next s1) (s_now s1) (s_iter s1) (s_log s1).
 
 Definition s_op (s : sst) (o : op) : sst :=
   match o with
